@@ -119,7 +119,7 @@ func (c *converter) FuncStart(name string, params []string, returnTypes []parser
 	c.addLine(fmt.Sprintf("%s() {", name))
 
 	for i, param := range params {
-		s := c.varAssignmentString(param, fmt.Sprintf("$%d", i+1), false)
+		s := c.varAssignmentString(param, fmt.Sprintf("${%d}", i+1), false)
 		c.addLine(fmt.Sprintf("local %s", s))
 	}
 	return nil
